@@ -145,7 +145,7 @@ fn oracle(c: &Case, st: &mut Stats) -> Result<(), String> {
   }
   let other_ev = &honest[honest.len() - 1];
   let (oc, os) = proof_scalars(other_ev.1.proof.as_ref().unwrap())?;
-  let mut tamper = |name: &str, t: Tuple, st: &mut Stats| -> Result<(), String> {
+  let tamper = |name: &str, t: Tuple, st: &mut Stats| -> Result<(), String> {
     st.evals(1);
     match verify_raw(&t).map_err(|e| format!("{e} ({name})"))? {
       None => {
